@@ -51,6 +51,9 @@ type Hooks struct {
 	// UnknownCall is called for a call through a function value the interpreter
 	// cannot resolve; it returns the state to continue with (e.g. a havocked one).
 	UnknownCall func(st *State, at ssa.Instruction) *State
+	// Elem is called for every element address computation with the array it
+	// indexes (object + path of the array), the index and the array length (-1 unknown).
+	Elem func(st *State, at ssa.Instruction, obj *Object, path string, idx *Int, length int64)
 	// TypeAssert is called for single-result type assertions that may fail.
 	TypeAssert func(st *State, at ssa.Instruction)
 }
@@ -84,7 +87,8 @@ type Interp struct {
 	// Steps bounds the work of one top-level evaluation (fail closed on runaway).
 	StepBudget int
 	// SkipCalls lists functions treated as no-ops returning Top (e.g. host output).
-	nextObj int
+	nextObj  int
+	hostSyms map[string]Sym
 }
 
 func NewInterp(prog *ssa.Program, repo func(*types.Package) bool) *Interp {
